@@ -29,7 +29,7 @@ fn long_string(rng: &mut Rng, units: usize) -> String {
     }
 }
 
-fn boundary_rows(rng: &mut Rng, lex: &mut Lexicon, nid: i64, heavy: bool) {
+pub fn boundary_rows(rng: &mut Rng, lex: &mut Lexicon, nid: i64, heavy: bool) {
     let pool = dictgen::pos_pool();
     let lens: &[usize] = if heavy { &[1, 126, 127, 128, 129, 255, 256, 1000, 10922] } else { &[1, 126, 127, 128, 129, 255, 256] };
     for _ in 0..1 + rng.below(4) {
